@@ -94,6 +94,9 @@ func (o *MergeAndSortRulesOptimizer) Optimize(rules []*config_parser.RoutingRule
 			// Negated conditions must not be merged: "!f(a) -> o; !f(b) -> o" matches
 			// when a or b is absent, whereas "!f(a, b) -> o" needs both to be absent.
 			!mergingRule.AndFunctions[0].Not && !rules[i].AndFunctions[0].Not &&
+			// A condition without values is a catch-all (sub(), node(), subnode());
+			// appending its empty list to a neighbour's values would lose it.
+			len(mergingRule.AndFunctions[0].Params) > 0 && len(rules[i].AndFunctions[0].Params) > 0 &&
 			rules[i].Outbound.String(true, false, true) == mergingRule.Outbound.String(true, false, true) {
 			mergingRule.AndFunctions[0].Params = append(mergingRule.AndFunctions[0].Params, rules[i].AndFunctions[0].Params...)
 		} else {
